@@ -31,13 +31,14 @@ func c04Params(thorough bool) []histParams {
 		{Name: "V40-R0-L200-token-expires-at-once", V: 40, R: 0, L: 200, G: 70, Gaps: []int64{20, 60, 220}, Policy: pol, User: carol, Alphabet: "c04", MaxDepth: 6},
 		// the validity TTL set to zero: every request revalidates
 		{Name: "V0-R100-L200-revalidate-every-request", V: 0, R: 100, L: 200, G: 70, Gaps: []int64{20, 60, 220}, Policy: pol, User: carol, Alphabet: "c04", MaxDepth: 6},
+		// the token runs out inside the validity window (a refresh while no revalidation is due)
+		{Name: "V60-R30-L200", V: 60, R: 30, L: 200, G: 70, Gaps: []int64{20, 40, 80, 220}, Policy: pol, User: carol, Alphabet: "c04", MaxDepth: 12},
 		{Name: "V40-R100-L200-upstream-sets-cookie", V: 40, R: 100, L: 200, G: 70, Gaps: []int64{20, 60, 120, 220}, Policy: pol, User: carol, Alphabet: "c04", MaxDepth: 12, UpstreamCookie: true},
 		{Name: "V40-R100-L200-long-tokens", V: 40, R: 100, L: 200, G: 70, Gaps: []int64{20, 60, 120, 220}, Policy: pol, User: carol, Alphabet: "c04", MaxDepth: 12, LongTokens: true},
 	}
 	if thorough {
 		ps = append(ps,
 			histParams{Name: "V40-R100-L400-finer", V: 40, R: 100, L: 400, G: 70, Gaps: []int64{5, 10, 35, 45, 95, 105, 410}, Policy: pol, User: carol, Alphabet: "c04", MaxDepth: 100},
-			histParams{Name: "V60-R30-L200", V: 60, R: 30, L: 200, G: 70, Gaps: []int64{20, 40, 80, 220}, Policy: pol, User: carol, Alphabet: "c04", MaxDepth: 12},
 			histParams{Name: "addr+grp", V: 40, R: 100, L: 200, G: 70, Gaps: []int64{20, 60, 120, 220}, Policy: policy{Name: "addr+grp", Addrs: []string{"carol@other.test"}, Groups: polGroups}, User: carol, Alphabet: "c04", MaxDepth: 12},
 		)
 	}
